@@ -15,6 +15,7 @@ op   [0,k,ds] get  [1,k,vid,exp,ds] put(stub answer)  [2,k,vid,ttls,ds] put(real
      [3,k,ds] flush(k)  [4,ds] flush()  [5,m,ds] set_max_size  [6,k,ds] get_hits_for_key
      [7,ds] hits()  [8,ds] misses()  [9,ds] get_statistics_snapshot  [10,ds] reset_statistics
      [11,d] clock += d  [12,k,vid,ttls,ds] put(real negative Answer: CNAME TTLs + [SOA TTL, SOA minimum])
+     [13,k,vid,msg,ds] put(Answer built from the response msg = [qr, rcode, questions, answer, authority])
 output  [state0, [ret, state] per op]   (an exception ends the list with its code)
 state   Cache: [[k,[vid,exp]]... in dict order, next_cleaning, hits, misses, now]
         LRU:   [[k,[vid,exp],node.hits] walking .next from the sentinel, [k..] walking .prev,
@@ -25,8 +26,11 @@ import itertools
 import os
 import threading as real_threading
 
+import dns.exception
+import dns.flags
 import dns.message
 import dns.name
+import dns.rdata
 import dns.rdataclass
 import dns.rdatatype
 import dns.resolver
@@ -36,8 +40,8 @@ import lib
 from lib import Err
 
 ID = "C17"
-COQ_IMPORTS = "From DV Require Import Model.CacheM."
-COQ_RUN = "CacheM.run"
+COQ_IMPORTS = "From DV Require Import Model.CacheM Model.CacheAnsM."
+COQ_RUN = "CacheAnsM.run"
 CASE_TIMEOUT = 10.0
 TRUSTED = [
     "model: coq/Model/CacheM.v (Cache value-level; LRUCache store-level with explicit prev/next ids; list-level spec alru)",
@@ -144,7 +148,117 @@ def negative_answer(k, vid, ttls):
     return a
 
 
+# ---- responses described structurally (op 13):  [qr, rcode, [question..], [rrset..], [rrset..]]
+#      question [labels, class, type]   rrset [labels, class, type, ttl, [rdata..]]
+#      rdata [0, labels] CNAME target | [1, minimum] SOA | [2, k] an A record 10.0.(k//250).(k%250+1)
+def build_message(desc):
+    """a real dns.message.QueryMessage assembled record by record (find_rrset(create=True) + add),
+    as dns.message.from_wire does"""
+    qr, rc, qs, ans, auth = desc
+    m = dns.message.QueryMessage(id=1)
+    if qr:
+        m.flags |= dns.flags.QR
+    m.set_rcode(rc)
+    for labels, cls, ty in qs:
+        m.find_rrset(m.question, dns.name.Name(labels), cls, ty, create=True, force_unique=True)
+    for section, rrsets in ((m.answer, ans), (m.authority, auth)):
+        for labels, cls, ty, ttl, rds in rrsets:
+            for rd in rds:
+                rs = m.find_rrset(section, dns.name.Name(labels), cls, ty, create=True)
+                if rd[0] == 0:
+                    r = dns.rdata.from_text(cls, ty, dns.name.Name(rd[1]).to_text())
+                elif rd[0] == 1:
+                    r = dns.rdata.from_text(cls, ty, f"ns.example. host.example. 1 2 3 4 {rd[1]}")
+                else:
+                    r = dns.rdata.from_text(cls, ty, f"10.0.{rd[1] // 250 % 250}.{rd[1] % 250 + 1}")
+                rs.add(r, ttl)
+    return m
+
+
+def encode_message(m):
+    """read the assembled message back: this is what resolve_chaining will see"""
+    def enc_rd(rs, rd):
+        if int(rs.rdtype) == 5:
+            return [0, [bytes(l) for l in rd.target.labels]]
+        if int(rs.rdtype) == 6:
+            return [1, rd.minimum]
+        a = rd.address.split(".")
+        return [2, int(a[2]) * 250 + int(a[3]) - 1]
+
+    def enc_sec(sec):
+        return [[[bytes(l) for l in rs.name.labels], int(rs.rdclass), int(rs.rdtype), rs.ttl, [enc_rd(rs, rd) for rd in rs]] for rs in sec]
+
+    return [1 if m.flags & dns.flags.QR else 0, int(m.rcode()),
+            [[[bytes(l) for l in q.name.labels], int(q.rdclass), int(q.rdtype)] for q in m.question],
+            enc_sec(m.answer), enc_sec(m.authority)]
+
+
+def message_answer(k, vid, desc):
+    m = build_message(desc)
+    q = m.question[0] if m.question else None
+    a = dns.resolver.Answer(q.name if q else dns.name.root, q.rdtype if q else A, q.rdclass if q else IN, m)
+    a._vid = vid
+    return a
+
+
+def gen_message(rng, k):
+    """a response for k<k>.example.: CNAME chains (possibly looping, broken or too long), the wanted
+    RRset or not, unrelated records, SOAs at several levels, both spellings of names"""
+    def nm(*labels, up=False):
+        ls = [l.encode() for l in labels] + [b"example", b""]
+        if up or rng.random() < 0.15:
+            ls = [l.upper() if rng.random() < 0.5 else l for l in ls]
+        return ls
+
+    qn = nm(f"k{k}".replace("-", "m"))
+    qty = 5 if rng.random() < 0.08 else 1
+    ttl = lambda: rng.choice([0, 1, 2, 5, 30, 300, 4294967295 if rng.random() < 0.05 else 60])  # noqa
+    ans = []
+    cur = qn
+    shape = rng.random()
+    nlinks = rng.choice([0, 0, 1, 1, 2, 3]) if shape < 0.95 else rng.choice([15, 16, 17])
+    for i in range(nlinks):
+        if shape >= 0.95 or rng.random() < 0.9:
+            tgt = nm(f"c{i}", f"k{k}".replace("-", "m"))
+        else:
+            tgt = cur if rng.random() < 0.5 else qn          # a loop
+        ans.append([cur, 1, 5, ttl(), [[0, tgt]]])
+        cur = tgt
+    r = rng.random()
+    if r < 0.6:
+        rds = [[2, rng.randrange(500)] for _ in range(rng.choice([1, 1, 2]))]
+        ans.append([cur, 1, qty if qty == 1 else 1, ttl(), rds])
+    elif r < 0.7:
+        ans.append([nm("other"), 1, 1, ttl(), [[2, 7]]])        # unrelated
+    if rng.random() < 0.15 and ans:
+        rng.shuffle(ans)
+    if rng.random() < 0.1 and ans:
+        dup = list(rng.choice(ans))
+        dup[3] = ttl()
+        ans.append(dup)                                      # same owner/type again: merged, min TTL
+    auth = []
+    if rng.random() < 0.7:
+        owner = rng.choice([[b"example", b""], [b"EXAMPLE", b""], cur, cur[1:] if len(cur) > 2 else cur, [b""], nm("elsewhere")])
+        auth.append([owner, 1, 6, ttl(), [[1, rng.choice([0, 1, 3, 60, 86400])]]])
+        if rng.random() < 0.2:
+            auth.append([[b"example", b""], 1, 6, ttl(), [[1, rng.choice([0, 2, 7])]]])
+    rc = 3 if rng.random() < 0.2 else (2 if rng.random() < 0.03 else 0)
+    qr = 0 if rng.random() < 0.04 else 1
+    qs = [[qn, 1, qty]]
+    if rng.random() < 0.03:
+        qs = [] if rng.random() < 0.5 else qs + [[nm("second"), 1, 1]]
+    return encode_message(build_message([qr, rc, qs, ans, auth]))
+
+
 def exc_code(e):
+    if isinstance(e, dns.message.NotQueryResponse):
+        return Err(20, "NotQueryResponse")
+    if isinstance(e, dns.message.ChainTooLong):
+        return Err(22, "ChainTooLong")
+    if isinstance(e, dns.message.AnswerForNXDOMAIN):
+        return Err(23, "AnswerForNXDOMAIN")
+    if type(e) is dns.exception.FormError:
+        return Err(21, "FormError")
     if isinstance(e, KeyError):
         return Err(1, "KeyError")
     if isinstance(e, AttributeError):
@@ -202,6 +316,9 @@ def do_call(cache, op, idx):
         return None
     if code == 12:
         cache.put(key_of(op[1], v), negative_answer(op[1], op[2], op[3]))
+        return None
+    if code == 13:
+        cache.put(key_of(op[1], v), message_answer(op[1], op[2], op[3]))
         return None
     if code == 3:
         cache.flush(key_of(op[1], v))
@@ -500,16 +617,19 @@ def gen_ops(rng, n, lru, nkeys, now, horizon):
             vid += 1
             e = now + rng.choice([-3, 0, 1, 2, 3, 5, 8, 13, 40, horizon])
             ops.append([1, k, vid, e, gen_ds(rng)])
-        elif r < 0.62:
+        elif r < 0.66:
             vid += 1
             ttls = [rng.choice([0, 1, 2, 5, 30, 300]) for _ in range(rng.choice([1, 1, 1, 2, 3]))]
-            if rng.random() < 0.3:
+            r2 = rng.random()
+            if r2 < 0.45:
+                ops.append([13, k, vid, gen_message(rng, k), gen_ds(rng)])
+            elif r2 < 0.6:
                 ops.append([12, k, vid, ttls + [rng.choice([0, 3, 60])] if len(ttls) == 1 else ttls, gen_ds(rng)])
             else:
                 ops.append([2, k, vid, ttls, gen_ds(rng)])
-        elif r < 0.70:
+        elif r < 0.72:
             ops.append([3, k, gen_ds(rng)])
-        elif r < 0.73:
+        elif r < 0.74:
             ops.append([4, gen_ds(rng)])
         elif r < 0.80 and lru:
             ops.append([5, rng.choice([-2, 0, 1, 1, 2, 2, 3, 4, 6]), gen_ds(rng)])
@@ -822,6 +942,56 @@ def cases(ctx):
 
 
 # ------------------------------------------------------------------ oracle (the property text on the implementation)
+def ref_min_ttl(desc):
+    """independent reference for the lifetime of an answer (RFC 1034 4.3.2 CNAME processing,
+    RFC 2308 5: negative answers live min(SOA TTL, SOA MINIMUM)); -> ("ok", ttl) | ("err", code)"""
+    qr, rc, qs, ans, auth = desc
+    if not qr:
+        return ("err", 20)
+    if len(qs) != 1:
+        return ("err", 21)
+    low = lambda n: [l.lower() for l in n]  # noqa
+    qn, cls, ty = qs[0]
+
+    def find(sec, name, t):
+        for r in sec:
+            if low(r[0]) == low(name) and r[1] == cls and r[2] == t:
+                return r
+        return None
+
+    best = 4294967295
+    cur = qn
+    answer = None
+    hops = 0
+    while True:
+        a = find(ans, cur, ty)
+        if a is not None:
+            best = min(best, a[3])
+            answer = a
+            break
+        c = find(ans, cur, 5) if ty != 5 else None
+        if c is None:
+            break
+        best = min(best, c[3])
+        cur = c[4][0][1]
+        hops += 1
+        if hops >= 16:
+            return ("err", 22)
+    if rc == 3 and answer is not None:
+        return ("err", 23)
+    if answer is None:
+        au = cur
+        while True:
+            soa = find(auth, au, 6)
+            if soa is not None:
+                best = min(best, soa[3], soa[4][0][1])
+                break
+            if len(au) <= 1:
+                break
+            au = au[1:]
+    return ("ok", best)
+
+
 _shrunk = {}
 
 
@@ -938,7 +1108,13 @@ def check_history(case, out):
             break
         o = out[step + 1]
         if isinstance(o, Err):
-            fail("exception " + o.text, step)
+            if op[0] == 13 and 20 <= o.code <= 23:
+                want = ref_min_ttl(op[3])
+                if want != ("err", o.code):
+                    fail("the Answer constructor raised although the response is a valid answer (or raised the wrong error)",
+                         step, raised=o.code, reference=list(want))
+            else:
+                fail("exception " + o.text, step)
             break
         ret, st = o
         if st[-1] < now:
@@ -973,7 +1149,7 @@ def check_history(case, out):
                     fail("get dropped an unexpired entry", step)
             elif new:
                 fail("get added a key", step)
-        elif code in (1, 2, 12):
+        elif code in (1, 2, 12, 13):
             k = op[1]
             if code == 1:
                 val = [op[2], op[3]]
@@ -987,7 +1163,15 @@ def check_history(case, out):
                     fail("put did not store the answer", step)
                     val = [op[2], 0]
                 made_at = before_now + (op[4][0] if op[4] else 0)
-                if val[1] != made_at + min(op[3]):
+                if code == 13:
+                    want = ref_min_ttl(op[3])
+                    if want[0] != "ok":
+                        fail("an Answer was built from a response that is not a valid answer", step, reference=list(want))
+                    elif val[1] != made_at + want[1]:
+                        fail("Answer.expiration is not its creation time plus the minimum TTL of the CNAME chain and the answer "
+                             "(or of the enclosing SOA for a negative answer)", step,
+                             expiration=val[1], created=made_at, reference_ttl=want[1])
+                elif val[1] != made_at + min(op[3]):
                     fail("Answer.expiration is not its creation time plus the minimum TTL", step,
                          expiration=val[1], created=made_at, ttls=op[3])
             evicted = [g for g in gone if g != k]
@@ -1054,11 +1238,11 @@ def check_history(case, out):
             hits = misses = 0
         if code in (6, 7, 8, 9, 10, 11) and (gone or new):
             fail("a statistics call or the passage of time changed the key set", step)
-        if not lru and code in (0, 1, 2, 12, 6, 7, 8, 9, 10, 11):
+        if not lru and code in (0, 1, 2, 12, 13, 6, 7, 8, 9, 10, 11):
             # the simple cache may drop entries while cleaning, but only expired ones
             for g in gone:
                 w = ideal.get(g)
-                if w is not None and w[1] > now and not (code in (1, 2, 12) and g == op[1]):
+                if w is not None and w[1] > now and not (code in (1, 2, 12, 13) and g == op[1]):
                     fail("cleaning dropped an unexpired entry", step, key=g)
         sh, sm = (st[4], st[5]) if lru else (st[2], st[3])
         if [sh, sm] != [hits, misses]:
